@@ -10,9 +10,12 @@ SF="${SEED_FLAGS:-}"
 git -C /repo worktree add -q --detach "$wt" HEAD || exit 2
 trap 'git -C /repo worktree remove --force "$wt" >/dev/null 2>&1' EXIT
 pkgs=$(grep '^+++ b/' "$sd/patch.diff" | sed 's|^+++ b/||' | xargs -n1 dirname | sort -u)
+# the demonstration may live in another package than the patched one (meta.json: demo_package)
+dp=$(python3 -c "import json,sys; print(json.load(open('$sd/meta.json')).get('demo_package',''))" 2>/dev/null)
+[ -n "$dp" ] && [ -d "$wt/$dp" ] && pkgs=$(printf '%s\n%s\n' "$pkgs" "$dp" | sort -u)
 demos=$(ls "$sd"/*_test.go 2>/dev/null)
 res="SEED $sd"
-place_demo() { for d in $demos; do pk=$(grep -m1 '^package ' "$d" | awk '{print $2}' | sed 's/_test$//'); for p in $pkgs; do if [ "$(basename $p)" = "$pk" ] || grep -q "^package $pk\b" "$wt/$p"/*.go 2>/dev/null; then cp "$d" "$wt/$p/"; echo "$p/$(basename $d)"; break; fi; done; done; }
+place_demo() { if [ -n "$dp" ] && [ -d "$wt/$dp" ]; then for d in $demos; do cp "$d" "$wt/$dp/"; echo "$dp/$(basename $d)"; done; return; fi; for d in $demos; do pk=$(grep -m1 '^package ' "$d" | awk '{print $2}' | sed 's/_test$//'); for p in $pkgs; do if [ "$(basename $p)" = "$pk" ] || grep -q "^package $pk\b" "$wt/$p"/*.go 2>/dev/null; then cp "$d" "$wt/$p/"; echo "$p/$(basename $d)"; break; fi; done; done; }
 run_demo() { local ok=PASS; for p in $pkgs; do ls "$wt/$p"/zz_seed*_test.go >/dev/null 2>&1 || continue; (cd "$wt" && go test $SF -vet=off -count=1 -timeout 300s -run 'Seed|seed' "./$p/" >/tmp/wsv_out_$$ 2>&1) || ok=FAIL; done; echo $ok; }
 placed=$(place_demo)
 [ -z "$placed" ] && res="$res demo=none"
